@@ -269,7 +269,7 @@ theorem compact_chunks (series : List (List Chunk)) (hwf : ChunkSeriesOK series)
     (out.flatMap (·.samples)).map (·.t) =
       (((series.flatten.flatMap (·.samples)).map (·.t)).mergeSort (· ≤ ·)).eraseDups ∧
     ∀ x ∈ out.flatMap (·.samples), ∃ c ∈ series.flatten, ∃ y ∈ c.samples,
-      x = y ∨ x = { y with payload := y.payload / 4 * 4 } := by
+      x = y ∨ (y.kind ≠ .float ∧ y.payload % 4 ≠ 3 ∧ x = { y with payload := y.payload / 4 * 4 }) := by
   have hp := compactAll_spec series hwf out h
   refine ⟨hp.ord, hp.ok, ?_, ?_⟩
   · apply strict_ext
